@@ -142,6 +142,66 @@ func errorExits(p *Prog, fi *FuncInfo) []errorExit {
 		}
 		return true
 	})
+	// the verdict may be chosen first and acted on once: `switch { case A: bad = x; case B: bad = y }`
+	// followed by `if bad != "" { return error }`. For every error exit that stands under `v != <zero>`
+	// (or `v` for a boolean) of a local v, each place that gives v a value is an exit of its own, with the
+	// facts it stands under added to the others
+	var virtual []errorExit
+	for _, e := range out {
+		for gi, a := range e.guards {
+			if a.Tag != nil || !a.Truth {
+				continue
+			}
+			var v types.Object
+			switch x := ast.Unparen(a.E).(type) {
+			case *ast.Ident:
+				v = info.Uses[x]
+			case *ast.BinaryExpr:
+				if x.Op == token.NEQ {
+					if tv, ok := info.Types[x.Y]; ok && (tv.Value != nil || tv.IsNil()) {
+						v = objOf(info, x.X)
+					} else if isNilIdent(info, x.Y) {
+						v = objOf(info, x.X)
+					}
+				}
+			}
+			vv, isVar := v.(*types.Var)
+			if !isVar || vv.IsField() || vv.Parent() == nil || vv.Parent() == vv.Pkg().Scope() {
+				continue
+			}
+			sig := fi.Obj.Type().(*types.Signature)
+			isParam := false
+			for i := 0; i < sig.Params().Len(); i++ {
+				if types.Object(sig.Params().At(i)) == v {
+					isParam = true
+				}
+			}
+			if isParam {
+				continue
+			}
+			ast.Inspect(fi.Decl.Body, func(n ast.Node) bool {
+				as, ok := n.(*ast.AssignStmt)
+				if !ok || as.Pos() > e.pos {
+					return true
+				}
+				for _, l := range as.Lhs {
+					if objOf(info, l) != v {
+						continue
+					}
+					var g []Atom
+					g = append(g, lexicalGuards(pm, as, fi.Decl.Body)...)
+					for gj, b := range e.guards {
+						if gj != gi {
+							g = append(g, b)
+						}
+					}
+					virtual = append(virtual, errorExit{as.Pos(), g, enclosingInits(pm, as, fi.Decl.Body), ownGuards(pm, as, fi.Decl.Body), as})
+				}
+				return true
+			})
+		}
+	}
+	out = append(out, virtual...)
 	return out
 }
 
@@ -683,7 +743,7 @@ func runC01(c *Ctx) {
 	if ens != nil {
 		reasons = append(reasons,
 			reason{"record/alert value is empty", ens, func(g string) bool { return strings.Contains(g, "!(hasValue(") && !strings.Contains(g, ".Value))") }, "one of 'record' or 'alert' must be set"},
-			reason{"expr is missing", ens, func(g string) bool { return strings.Contains(g, " == nil") && !strings.Contains(g, "hasValue") }, "field 'expr' must be set in rule"},
+			reason{"expr is missing", ens, func(g string) bool { return strings.Contains(g, "«PromQLExpr» == nil") }, "field 'expr' must be set in rule"},
 			reason{"expr is empty", ens, func(g string) bool { return strings.Contains(g, "!(hasValue(") && strings.Contains(g, ".Value))") }, "field 'expr' must be set in rule"},
 		)
 	}
